@@ -18,7 +18,10 @@ Sections:
   E  the same EOperation OBJECT declared again after its eParameters were edited in place (removed and re-added, moved
      to a sub-/supertype or an unrelated class, re-appended while declared): signature and call outcomes follow the
      CURRENT declaration on instances created before and after (composite ops 'editop' / 'redecl' of metaedit_io);
-     parameters of a DECLARED operation edited in place: the method follows at once, an attached behaviour stays
+     parameters of a DECLARED operation edited in place: the method follows at once, an attached behaviour stays;
+     E2 (stream C20:throughinvalid): single edits that pass THROUGH parameter lists without a Python signature (flags flipped one
+     at a time in every order, parameters inserted / removed / moved anywhere): after every step a valid list gives the method with
+     exactly that signature on old and new instances of the class and its subtypes, an invalid one no outdated method
   F  a dynamic package saved to an .ecore file and loaded in a fresh ResourceSet: the methods of the loaded classes have
      the declared signatures and call outcomes (implementation + oracle only)
 """
@@ -462,7 +465,7 @@ class Spec:
 
     def expect(self, i, n):
         for c in chain(self.inst[i]):
-            if n in self.ns[c]:
+            if n in self.ns[c] and self.ns[c][n][0] != 'gone':      # 'gone': the class has no method of its own any more
                 return self.ns[c][n]
         return ('absent',)
 
@@ -500,7 +503,12 @@ class Spec:
                 if prev[0] == 'beh':
                     pass
                 elif prev[0] in ('stub', 'gone'):
-                    self.ns[c][norm(name)] = ('stub', name, new, 'edit') if in_quantifier(name, new) else ('gone',)
+                    if in_quantifier(name, new):
+                        self.ns[c][norm(name)] = ('stub', name, new, 'edit')
+                    elif any(p[0] == 'self' for p in new):
+                        self.ns[c][norm(name)] = ('unknown',)       # a declared `self` may well compile
+                    else:
+                        self.ns[c][norm(name)] = ('gone',)          # no Python signature: no outdated method either
                     if code != 0 and in_quantifier(name, new):
                         self.out.fail({'property': 'C20', 'culprit': 'edit-operation', 'clause': 'edit-raises', 'qualifiers': []},
                                       f'{op}: editing the parameters of a declared operation raised (code {code})', case)
@@ -964,6 +972,102 @@ def redeclare_scenarios(ctx, out, model=None, intern=None, stats=None):
         model.close()
 
 
+# ---------------------------------------------------------------- section E2: edits THROUGH invalid parameter lists
+def probe_step(h, insts, name, cur):
+    """After one edit of the declared operation: the full probe when the list has a Python signature, else only
+    'is there a method' (signature + one call: with no method of its own the class shows what it inherits, or nothing)."""
+    nn = norm(name)
+    if in_quantifier(name, cur):
+        probe(h, insts, nn, cur)
+    else:
+        for i in insts:
+            h.append(['sig', i, nn])
+        h.append(['call', insts[0], nn, 0])
+
+
+def walk_history(name, params, steps, pos, beh, upper=None):
+    """Instances before; [an operation of the same name on the super type `upper`]; declare at pos; instances after;
+    [behaviour BELOW pos]; then the edits one by one, each followed by a new instance of a subtype and a look at old and
+    new instances of the class and of its subtypes."""
+    h = list(GRAPH) + [['newinst', c] for c in (1, 2, 3, 4)]
+    if upper is not None:
+        h.append(['addop', upper, name, [['k', 1, 'int']], 'append'])
+    h.append(['addop', pos, name, params, 'append'])
+    h += [['newinst', c] for c in (1, 2, 3, 4)]
+    if beh is not None:
+        h.append(['attach', beh, norm(name), 41])
+    ninst = 8
+    cur = params
+    probe_step(h, [pos - 1, 2, pos + 3, 6], name, cur)
+    for e in steps:
+        h.append(['editop', pos, name, [e]])
+        cur = mio.apply_param_edits(cur, [e])
+        h.append(['newinst', 3 if ninst % 2 else pos])
+        ninst += 1
+        probe_step(h, [pos - 1, 2, pos + 3, 6, ninst - 1], name, cur)
+    return h
+
+
+def random_walk(rng, params, n):
+    """n single edits; any flag may flip, parameters come, go and move anywhere: many intermediate lists are invalid."""
+    cur = [list(p) for p in params]
+    steps = []
+    for _ in range(n):
+        x = rng.random()
+        k = len(cur)
+        if k and x < 0.5:
+            e = ['flip', rng.randrange(k)]
+        elif x < 0.7 and k < 5:
+            e = ['insert', rng.randint(0, k), [fresh_names(cur, 1)[0], rng.choice([0, 1]), rng.choice(['int', 'str', 'bool'])]]
+        elif x < 0.85 and k:
+            e = ['remove', rng.randrange(k)]
+        elif k >= 2:
+            i = rng.randrange(k)
+            e = ['move', i, rng.choice([j for j in range(k) if j != i])]
+        else:
+            e = ['append', [fresh_names(cur, 1)[0], rng.choice([0, 1]), 'int']]
+        steps.append(e)
+        cur = mio.apply_param_edits(cur, [e])
+    return steps
+
+
+def invalid_walk_scenarios(ctx, out, model=None, intern=None, stats=None):
+    """Own PRNG stream 'C20:throughinvalid'; implementation + oracle only (every history edits a declared operation)."""
+    common.use_repo()
+    intern = intern or mio.Interner()
+    stats = stats if stats is not None else {'histories': 0, 'ops': 0, 'op_kinds': {}, 'outcomes': {}, 'samples': []}
+    thorough = ctx.tier == 'thorough'
+    rng = common.rng_for(ctx.seed, 'C20:throughinvalid')
+    tag = {'scenario': 'throughinvalid', 'seed': ctx.seed, 'tier': ctx.tier, 'section': 'E2'}
+    hs = []
+    # all required -> all optional and back, one flag at a time, in every order
+    for n in (2, 3):
+        params = [[REQ_NAMES[i], 1, ['int', 'str', 'bool'][i]] for i in range(n)]
+        for order in itertools.permutations(range(n)):
+            for back in itertools.permutations(range(n)):
+                if n == 3 and not thorough and (sum(order) * 7 + back[0] * 3 + back[1] + ctx.seed) % 3:
+                    continue
+                steps = [['flip', i] for i in order] + [['flip', i] for i in back]
+                for pos, beh, upper in ((1, None, None), (2, None, 1), (2, 3, None)):
+                    hs.append(walk_history('run', params, steps, pos, beh, upper))
+    # a required parameter arrives at the end and is moved to the front; an optional one arrives in front and is made required
+    for pos, upper in ((1, None), (2, 1)):
+        hs.append(walk_history('go', shape(1, 1), [['append', ['g', 1, 'int']], ['move', 2, 0]], pos, None, upper))
+        hs.append(walk_history('go', shape(1, 1), [['insert', 0, ['g', 0, 'int']], ['flip', 0], ['flip', 2], ['flip', 1], ['remove', 1]], pos, None, upper))
+        hs.append(walk_history('class', shape(2, 0), [['flip', 0], ['remove', 0], ['insert', 0, ['g', 0, 'str']], ['move', 0, 1]], pos, None, upper))
+    for _ in range(2000 if thorough else 250):
+        params = shape(rng.randrange(3), rng.randrange(3))
+        pos = rng.choice([1, 2, 2, 3])
+        hs.append(walk_history(rng.choice(['run', 'class', 'go']), params, random_walk(rng, params, rng.randint(3, 8)), pos,
+                               rng.choice([None, None, min(pos + 1, 3)]) if pos < 3 else None,
+                               rng.choice([None, 1]) if pos > 1 else None))
+    for h in hs:
+        name = next(op[2] for op in h if op[0] == 'addop')
+        case = dict(tag, history=h, names=[norm(name), name])
+        run_history(out, model, intern, h, case['names'], case, stats)
+        stats['through_invalid_histories'] = stats.get('through_invalid_histories', 0) + 1
+
+
 # ---------------------------------------------------------------- section F: through an .ecore file and back
 RT_KINDS = ['int', 'str', 'bool', 'ref']
 
@@ -1101,6 +1205,7 @@ def run(ctx, out):
     static_hierarchy_cases(out, model, stats, common.rng_for(ctx.seed, 'C20:hierarchy'), 60 if ctx.tier != 'thorough' else 1500)
     section_d(out, model, intern, stats, ctx)
     redeclare_scenarios(ctx, out, model, intern, stats)
+    invalid_walk_scenarios(ctx, out, model, intern, stats)
     roundtrip_scenarios(ctx, out, stats)
     model.close()
     if mio.flag_installed():
@@ -1128,6 +1233,7 @@ def run(ctx, out):
         'scenarios': stats['scenarios'], 'random_histories': stats['random_histories'],
         'redeclare_scenarios': stats['redeclare_scenarios'], 'redeclare_random_histories': stats['redeclare_random'],
         'edit_while_declared_scenarios': stats.get('edit_scenarios', 0),
+        'edit_walks_through_invalid_parameter_lists': stats.get('through_invalid_histories', 0),
         'roundtrips_through_ecore': stats.get('roundtrips_through_ecore', 0), 'methods_checked_in_roundtrips': stats.get('roundtrip_methods', 0),
         'roundtrips_whose_declaration_did_not_survive_the_file': stats.get('roundtrip_declaration_lost', 0),
         'histories_judged_by_the_oracle_only_(in_place_edits_of_declared_operations)': stats.get('oracle_only_histories', 0),
@@ -1153,6 +1259,8 @@ def replay(ctx, rep):
     case = rep['case']
     if case.get('scenario') == 'roundtrip':
         return common.scenario_replay(ctx, rep, {'roundtrip': roundtrip_scenarios})
+    if case.get('scenario') == 'throughinvalid':
+        return common.scenario_replay(ctx, rep, {'throughinvalid': invalid_walk_scenarios})
     intern = mio.Interner()
     out = common.Outcome('C20', 'quick', 0)
     if case.get('section') == 'B':
